@@ -49,6 +49,10 @@ Proof. exact codec_size_reported. Qed.
 Theorem C20_source_finish_paths : finish_paths_once = true.
 Proof. exact paths_finish_once. Qed.
 
+(* on every path through the function bodies as they are in the source now (Generated.body_census, enumerated by Model/Paths.v) of rpcResponseMessage.DecodeMessage: the reply payload length is added to the record of the call once, immediately after the call was found, not deferred, before the decoder can be replaced by the one over the decompressed result, and on every way out on which the call was found *)
+Theorem C20_source_reply_size_added_once : response_size_paths = true.
+Proof. exact paths_response_size. Qed.
+
 Print Assumptions C20_one_record_per_instrumenter.
 Print Assumptions C20_second_finish_refused.
 Print Assumptions C20_recorded_size_is_sum.
@@ -61,3 +65,4 @@ Print Assumptions C20_serve_paths_reply.
 Print Assumptions C20_paths_nonvacuous.
 Print Assumptions C20_encoder_reports_the_frame_bytes.
 Print Assumptions C20_source_finish_paths.
+Print Assumptions C20_source_reply_size_added_once.
